@@ -10,10 +10,14 @@ pub trait NamingContext {
     fn config(&self) -> &GenerateConfig;
 
     /// Convert an event name to a TypeScript event listener function name
-    /// Example: "user_login" -> "onUserLogin", "user-login" -> "onUserLogin"
+    /// Example: "user_login" -> "onUserLogin", "user-login" -> "onUserLogin", "user:login" -> "onUserLogin"
     fn event_name_to_function(&self, event_name: &str) -> String {
-        // Normalize kebab-case to snake_case since serde_rename_rule expects snake_case
-        let normalized = event_name.replace('-', "_");
+        // Normalize the separators Tauri allows in event names ('-', ':', '/') to snake_case,
+        // since serde_rename_rule expects snake_case and none of them may appear in an identifier
+        let normalized = event_name
+            .replace('-', "_")
+            .replace(':', "_")
+            .replace('/', "_");
         format!(
             "on{}",
             self.apply_naming_convention(&normalized, RenameRule::PascalCase)
